@@ -464,6 +464,12 @@ def export_to_zipfile(jobs, zipfile, path=None):
 
         """
         for root, dirnames, filenames in os.walk(src):
+            if not dirnames and not filenames:
+                # An empty directory is written as an entry of its own.
+                zipfile.write(
+                    filename=root,
+                    arcname=os.path.join(dst, os.path.relpath(root, src)),
+                )
             for fn in filenames:
                 zipfile.write(
                     filename=os.path.join(root, fn),
@@ -917,6 +923,9 @@ class _CopyFromZipFileExecutor:
 
         for name in self.names:
             fn_dst = self.job.fn(os.path.relpath(name, self.root or os.curdir))
+            if name.endswith("/"):  # entry of an (empty) directory
+                _mkdir_p(fn_dst)
+                continue
             _mkdir_p(os.path.dirname(fn_dst))
             with open(fn_dst, "wb") as dst:
                 dst.write(self.zipfile.read(name))
